@@ -34,6 +34,13 @@
 (*   decl    position in the declared list (0: not declared - a decoy)     *)
 (*   rel     position in the relationship / manifest listing (0: none)     *)
 (*   zip     position among the archive members                            *)
+(*   notes   TRUE: the part has an ATTACHMENT of its own (PPTX: a notes     *)
+(*           slide related from the slide part) whose text - token id+200   *)
+(*           - belongs to the part's page: every view that includes notes   *)
+(*           shows it on that page and only there; an unreadable part       *)
+(*           takes its attachment with it.  XLSX worksheets and EPUB        *)
+(*           chapters have no attachment with text of its own that the      *)
+(*           readers expose (comments, linked resources are not read)       *)
 (*   present FALSE: the member is ABSENT from the archive.  A declared     *)
 (*           part whose member is absent is not readable: it has no page,  *)
 (*           it is not counted, and nothing else may be shown in its place *)
@@ -125,6 +132,8 @@ ResolveWith(mode, base, href) ==
     [dir  |-> Norm(<<>>, IF href.abs THEN href.segs ELSE base \o href.segs),
      stem |-> href.stem, sp |-> DecodeWith(mode, href.enc), n |-> href.n, ext |-> href.ext]
 
+\* the attachment token of a part (0: none)
+Attach(x) == IF x.notes THEN x.id + 200 ELSE 0
 PartSet(p)  == {p.parts[i] : i \in 1..Len(p.parts)}
 Declared(p) == {x \in PartSet(p) : x.decl > 0}
 NDecl(p)    == Cardinality(Declared(p))
